@@ -358,7 +358,7 @@ def run_fuzz(ctx, case):
     for i in range(200):
         with open(os.path.join(corp, "g%03d" % i), "wb") as f:
             f.write(mutate.random_block(r, ctx.params["options"], NAMES).encode("latin-1", "replace"))
-    runs = int(os.environ.get("VERIF_FUZZ_RUNS", "60000"))
+    runs = int(os.environ.get("VERIF_FUZZ_RUNS", "4000"))      # per job; 16 jobs
     env = dict(os.environ)
     env.update(core.SAN_ENV)
     env["VFUZZ_DB"] = os.path.join(ctx.repo, "database", "phreeqc.dat")
